@@ -12,6 +12,8 @@ import (
 	"runtime/debug"
 	"strings"
 	"sync"
+
+	"verif/sim/kernel"
 )
 
 // Exchange is one request/response pair that crossed the simulated network.
@@ -221,6 +223,7 @@ type transport struct {
 }
 
 func (t *transport) RoundTrip(req *http.Request) (*http.Response, error) {
+	kernel.Tick()
 	ex, err := t.n.Serve(t.from, req)
 	if h, ok := req.Context().Value(exHolderKey{}).(*ExHolder); ok {
 		h.Ex = ex
